@@ -535,15 +535,36 @@ package resolver
 //@   assert at store resolver.TrustAnchor.State#9: fetchedKeys[lastret("middleware/resolver.dnskeyIdentity")]
 //@   assert at store resolver.TrustAnchor.State#7: !fetchedKeys[lastret("middleware/resolver.dnskeyIdentity")]
 //@   assert at mapdelete#2: !fetchedKeys[lastret("middleware/resolver.dnskeyIdentity")]
-//@   # C09, KNOWN FINDINGS (recorded, not repaired - see /verif/known_findings.json, DESIGN 8.11):
-//@   # (a) the fetched keys are held one per 16-bit tag; a revoked anchor published together with a different key of the
+//@   # C09, KNOWN FINDING (recorded, not repaired - see /verif/known_findings.json, DESIGN 8.11):
+//@   #     the fetched keys are held one per 16-bit tag; a revoked anchor published together with a different key of the
 //@   #     same tag can be overwritten in that table, and its self-signed revocation is then never examined. The
 //@   #     obligation: a fetched key is filed only under a tag nothing is filed under yet
 //@   assert at mapupdate#6: !has(kskFetched, keyTag)
-//@   # (b) a revocation that was accepted but could be persisted nowhere clears the live set and is otherwise forgotten:
-//@   #     the next refresh starts from the stale state file and trusts the key again. The obligation: that branch also
-//@   #     records the revocation in the resolver's memory
+//@   # "revocation is permanent": a revocation that was accepted but could be persisted nowhere is kept in the resolver's
+//@   # memory by the branch that clears the live set, every refresh merges what is remembered into the store it read from
+//@   # disk before anything is decided from it, and it is forgotten only once the tombstone store was written
 //@   assert at store resolver.Resolver.rootKeys#3: calls("(*middleware/resolver.Resolver).rememberUnpersistedRevocation") >= 1
+//@   assert at call (*middleware/resolver.Resolver).rememberUnpersistedRevocation#1: arg1 == tombstones
+//@   assert at call (*middleware/resolver.Resolver).withUnpersistedRevocations#1: arg1 == lastret("middleware/resolver.readTombstones") && lastret("middleware/resolver.readTombstones", 1) == nil
+//@   assert at call middleware/resolver.writeTombstones#1: calls("(*middleware/resolver.Resolver).forgetUnpersistedRevocations") == 0
+//@   assert at call (*middleware/resolver.Resolver).forgetUnpersistedRevocations#1: lastret("middleware/resolver.writeTombstones") == nil
+//@
+//@ func (*Resolver).rememberUnpersistedRevocation
+//@   abstract
+//@   nosafety all pre
+//@   assert at store resolver.Resolver.unpersistedRevocations#1: value == t
+//@
+//@ # the merge only adds: nothing read from disk is replaced or dropped, and what comes back is the store handed in
+//@ func (*Resolver).withUnpersistedRevocations
+//@   abstract
+//@   nosafety all pre
+//@   assert at mapupdate#1: themap == t && !has(t, fp) && value == ts
+//@   assert at return#1: result == t
+//@
+//@ func (*Resolver).forgetUnpersistedRevocations
+//@   abstract
+//@   nosafety all pre
+//@   assert at store resolver.Resolver.unpersistedRevocations#1: value == nil
 //@
 //@ # the revocation store reads as empty ONLY when the file does not exist; bytes that do not decode are corruption
 //@ # (an error the caller fails closed on), never an empty store
